@@ -164,6 +164,11 @@ let run (id : string) (hdr : string list) (lines : string list list) (out : stri
           | _ -> failwith "bad batch operation") ops in
       show (req (QBatch (ops, s = "1"))); go rest
     | ["scan"; p; s; a; e; l] :: r -> show (req (QScan (scanopts p s a e l))); go r
+    | ["scanwrite"; ka; va; kb; vb] :: r ->
+      (* the batch waits for the read lock of the scan: the scan shows the state before it *)
+      show (req (QScan (scanopts "-" "-" "-" "-" "0")));
+      show (req (QBatch ([{ bw_type = n_of_int 0; bw_key = btok ka; bw_val = btok va };
+                          { bw_type = n_of_int 0; bw_key = btok kb; bw_val = btok vb }], false))); go r
     | ["begin"; m] :: r ->
       let resp = req (QBegin (m = "ro")) in
       (match resp with PBegun i -> begun := Some (HId i) :: !begun | _ -> begun := None :: !begun);
